@@ -312,6 +312,7 @@ def run(ctx):
         spell = derive_spellings(units, subs)
         n_entries = 0
         per_entry, per_entry_exc = {}, {}
+        n_str_sub = 0
         ctx.rule = (
             "legacy spellings derived from the %d substitutions for all %d table units (every non-empty subset of token occurrences x every legacy form, not themselves table symbols): %d spellings; "
             "each x ~55 API entry forms + 7 category-registration forms, legacy vs current spelling, canonical outcomes identical; all current symbols and all category default/valid units unchanged by "
@@ -357,6 +358,43 @@ def run(ctx):
             ch2, f2 = Fix(f)
             if ch2 or f2 != f:
                 ctx.violation("rewrite-not-idempotent:%s" % leg, {"legacy": leg, "once": f, "twice": f2})
+            # a category of the application with a non-zero default amount (every shipped default is 0: an amount that needs
+            # no conversion), asked for in the legacy spelling without a value
+            nz = "vp16 non-zero default %s" % qt
+            if nz not in db.categories_to_quantity_types:
+                try:
+                    db.AddCategory(nz, qt, default_unit=base if base != cur else other, default_value=999.99)
+                except Exception:
+                    nz = None
+            if nz:
+                from barril.units import FractionScalar as _FS, Scalar as _S
+
+                for name, fn in (("Scalar(c,unit=u) of a non-zero default", lambda u: _S(nz, unit=u)), ("FractionScalar(c,unit=u) of a non-zero default", lambda u: _FS(nz, unit=u)),
+                                 ("Scalar(c).CreateCopy(unit=u) of a non-zero default", lambda u: _S(nz).CreateCopy(unit=u))):  # fmt: skip
+                    ctx.ev()
+                    ctx.nt((leg, name))
+                    ol, oc = outcome(lambda: fn(leg)), outcome(lambda: fn(cur))
+                    if ol != oc:
+                        ctx.violation("legacy-differs-from-current:%s" % name, {"legacy": leg, "current": cur, "category": nz, "entry": name, "with_legacy": ol, "with_current": oc}, replay={"legacy": leg, "current": cur})
+            # the spelling carried by a str *subclass* (numpy.str_ from an array of unit names, an application's own str type)
+            if n_str_sub % 3 == 0 and cat_list:
+                import numpy as _np
+
+                class AppStr(str):
+                    pass
+
+                for wrap_name, wrap in (("numpy.str_", _np.str_), ("str subclass", AppStr)):
+                    for name, fn in entries(db, qt, cat_list[0], base if base != cur else other, other):
+                        ctx.ev()
+                        # several entries insist on exact str objects ("Only str is accepted" - a TypeError, for either spelling):
+                        # a spelling handed over as a str subclass is therefore either refused as not-a-str, or means what the
+                        # same text means as a plain str - never a third thing
+                        ol, plain = outcome(lambda: fn(wrap(leg))), outcome(lambda: fn(leg))
+                        if ol != plain and not (ol[0] == "exc" and ol[1] in ("TypeError", "AssertionError")):  # (derived requests assert the class)
+                            ctx.violation("legacy-spelling-as-a-str-subclass-differs-from-the-plain-str:%s:%s" % (name, wrap_name), {"legacy": leg, "current": cur, "entry": name, "given_as": wrap_name, "as_subclass": ol, "as_plain_str": plain}, replay={"legacy": leg, "current": cur})
+                        elif ol[0] == "ok":
+                            ctx.count("entry pairs agreeing on a value (spelling given as a str subclass)")
+            n_str_sub += 1
             for cat in cat_list:
                 for name, fn in entries(db, qt, cat, base if base != cur else other, other):
                     ctx.ev()
